@@ -66,7 +66,7 @@ def pstep (st : PSt) (ts : List String) : PSt × String :=
   | ["drain"] =>
     if !st.live || (!st.wclosed && st.p.phase != .done) then (st, "bad-op") else
     let (st', got) := drainAll (st.p.buf.length + 2) st []
-    (st', s!"got {natCsv got} closed")
+    (st', if got.isEmpty then "got closed" else s!"got {natCsv got} closed")
   | _ => (st, "bad-op")
 
 def pipeSuite : Suite := { σ := PSt, init := {}, step := pstep }
@@ -174,11 +174,17 @@ def bstep (st : BSt) (ts : List String) : BSt × String :=
       let cfg : Cfg := { n := n, root := t, fixed := false }
       let fuel := 8 * t.nodes.length + 2 * n + 64
       let (s, returned) := simulate cfg f k (2 * fuel) (Rng.new seed) (BF.init cfg)
+      let size := t.nodes.length
+      let hits := match f with
+        | .none => false
+        | .mem => k < size
+        | _ => k ≥ 1 && k ≤ size
       if !returned then (st, "ret=hang settled")
       else if s.sh.err then (st, "ret=err settled")
+      else if hits then (st, "ret=ok settled")
       else match s.coord with
         | .ret true => (st, s!"ret=ok visited={natList (sortNat s.visited)} settled")
-        | _ => (st, "ret=ok settled")
+        | _ => (st, "ret=ok-not-via-zero settled")
     | _, _, _, _, _ => (st, "bad-op")
   | _ => (st, "bad-op")
 
@@ -227,6 +233,9 @@ def sstep (st : SSt) (ts : List String) : SSt × String :=
     | some skip, some limit, some n =>
       (st, natList ((({ limit := limit, skip := skip } : Tracker).offer (List.range n)).2))
     | _, _, _ => (st, "bad-op")
+  | ["pfloors", mx, _workers] => match mx.toNat? with
+    | some mx => (st, natList (floors mx 20000))
+    | none => (st, "bad-op")
   | ["floors", mx, stride] => match mx.toNat?, stride.toNat? with
     | some mx, some stride => if stride == 0 then (st, "bad-op") else (st, natList (floors mx stride))
     | _, _ => (st, "bad-op")
